@@ -608,10 +608,20 @@ def _flatten_tab(t):
     loopvars.append(t.args[3])
     base = t.args[0]
     # nested: index = ("inner", idx2, lv2)
-    while isinstance(idx, sp.Tuple) and len(idx.args) == 3 and idx.args[0] == Str("inner"):
+    while isinstance(idx, sp.Tuple) and len(idx.args) in (3, 4) and idx.args[0] == Str("inner"):
         loopvars.append(idx.args[2])
         idx = idx.args[1]
     return base, idx, val, loopvars
+
+
+def tab_ranges(t):
+    """iteration spaces of the loops of a (nested) tabulate, outermost first"""
+    out = [t.args[4] if len(t.args) > 4 else None]
+    idx = t.args[1]
+    while isinstance(idx, sp.Tuple) and len(idx.args) in (3, 4) and idx.args[0] == Str("inner"):
+        out.append(idx.args[3] if len(idx.args) > 3 else None)
+        idx = idx.args[1]
+    return out
 
 
 def read_tabulate(it, tab, idx):
